@@ -285,8 +285,20 @@ def env():
     return _env
 
 
+_env_ae = None
+
+
+def env_autoescape():
+    """The same chains under autoescape: the templates' own text (markers with angle brackets included) is markup and stays as it is, through
+    block.super at any depth as well."""
+    global _env_ae
+    if _env_ae is None:
+        _env_ae = drv.make_env({"extra": True, "autoescape": True})
+    return _env_ae
+
+
 def execute(case: dict[str, Any], use_async: bool):
-    e = env()
+    e = env_autoescape() if case.get("autoescape") else env()
     srcs = {name: print_template(t) for name, t in case["templates"].items()}
     srcs.update(WIDGETS)
     entry = case["leaf"]
@@ -642,6 +654,13 @@ def gen_chain(rng) -> dict[str, Any]:
 
 
 def cases(ctx: core.Ctx):
+    for i, c in enumerate(_cases(ctx)):
+        if i % 3 == 1:
+            c["autoescape"] = True
+        yield c
+
+
+def _cases(ctx: core.Ctx):
     rng = ctx.rng("cases")
     # a first slice of sampled chains (they carry the cycles, duplicates and mismatched endblocks) before the enumeration, which the
     # thorough tier's time cap may not get past
